@@ -216,7 +216,17 @@ func GenerateRandomExpr(level int, random *rand.Rand, opts ...GenExprOption) Gen
 		}
 	}
 
-	return helper(c.GenType, level)
+	res := helper(c.GenType, level)
+	if !strings.HasPrefix(res.Expr, "(") {
+		// at level 0 the result is a bare number or variable, which is not
+		// a complete expression, wrap it into an operator that keeps its value
+		if c.GenType == GenBool {
+			res.Expr = fmt.Sprintf("(and %s %s)", res.Expr, res.Expr)
+		} else {
+			res.Expr = fmt.Sprintf("(+ %s 0)", res.Expr)
+		}
+	}
+	return res
 }
 
 func GenerateTestCase(expr string, want Value, valMap map[string]interface{}) string {
